@@ -57,6 +57,10 @@ func runC07(c PairCase, o *run.Obs) error {
 		return nil
 	}
 	desc := fmt.Sprintf("[%s] mode=%s old=%s new=%s", c.Cfg, c.Mode, w.DescribeModel(p.old.Model), w.DescribeModel(p.new.Model))
+	if c.Prelude > 0 {
+		diffPrelude(p, c.Prelude)
+		o.Label("after-an-abandoned-diff")
+	}
 	ld, err := diffLinks(p)
 	if err != nil {
 		return fmt.Errorf("%s: DiffLinks failed: %w", desc, err)
